@@ -349,7 +349,12 @@ class SymNDArray(_np.ndarray, metaclass=_NDMeta):
                                                  keepdims=keepdims, **kw)
         if self.dtype == object:
             kd = False if keepdims is _np._NoValue else keepdims
-            n = self.size if axis is None else self.shape[axis]
+            if axis is None:
+                n = self.size
+            elif isinstance(axis, (tuple, list)):
+                n = int(_np.prod([self.shape[a] for a in axis], dtype=int))
+            else:
+                n = self.shape[axis]
             if n == 0 and kind in ('min', 'max'):
                 raise ValueError('zero-size array to reduction operation '
                                  '%simum which has no identity' % kind)
@@ -464,6 +469,19 @@ class SymMaskedArray(_np.ma.MaskedArray, metaclass=_MAMeta):
             d2 = data.reshape(1, -1)
             m2 = mask.reshape(1, -1)
             oshape = (1,) * data.ndim if keepdims else ()
+        elif isinstance(axis, (tuple, list)):
+            # joint reduction over several axes
+            axs = sorted(a if a >= 0 else a + data.ndim for a in axis)
+            keep = [i for i in range(data.ndim) if i not in axs]
+            d2 = _np.transpose(data, keep + axs)
+            m2 = _np.transpose(mask, keep + axs)
+            nl = int(_np.prod([data.shape[i] for i in keep], dtype=int)) \
+                if keep else 1
+            d2 = d2.reshape(nl, -1)
+            m2 = m2.reshape(d2.shape)
+            oshape = tuple(1 if i in axs else data.shape[i]
+                           for i in range(data.ndim)) if keepdims else \
+                tuple(data.shape[i] for i in keep)
         else:
             ax = axis if axis >= 0 else axis + data.ndim
             d2 = _np.moveaxis(data, ax, -1)
